@@ -1,0 +1,21 @@
+//go:build verif
+
+package authority
+
+import (
+	"github.com/smallstep/linkedca"
+
+	"github.com/smallstep/certificates/authority/admin"
+)
+
+// Hook for the verification harness of property C09 (build tag verif, add-only).
+//
+// VerifNewLinkedCAClient returns the authority's own linked-CA client (linkedCaClient in
+// linkedca.go: the admin.DB of a linked deployment, which also stores certificates, their
+// provisioner records and revocations at the linked CA service) on top of the given Majordomo
+// client, instead of the gRPC connection that newLinkedCAClient builds from a linked-CA token.
+// Pass it to the authority with WithAdminDB. No certificate renewer is attached, so Run and Stop
+// of the client (and therefore Authority.Shutdown) must not be called on it.
+func VerifNewLinkedCAClient(client linkedca.MajordomoClient, authorityID string) admin.DB {
+	return &linkedCaClient{client: client, authorityID: authorityID}
+}
